@@ -22,6 +22,13 @@ def gen_interval(rnd):
             offs.add(pos)
             bid += 1
         k = rnd.random()
+        if sz >= 3 and rnd.random() < 0.25 and pos + 1 not in offs and len(blocks) < 5:
+            # a short block nested inside this one; the next block then overlaps only this block's tail
+            blocks.append((bid, pos + 1, 1, rnd.random() < 0.6))
+            offs.add(pos + 1)
+            bid += 1
+            pos += sz - 1
+            continue
         pos += sz + (rnd.randint(1, 2) if k < 0.25 else 0) - (1 if (k > 0.85 and sz > 1) else 0)     # gaps and overlaps
         if sz == 0 and k >= 0.25:
             # a zero-sized block and a block that starts where it sits (only where no earlier block reaches: the choice of the "last"
@@ -121,6 +128,8 @@ def gen_parts(rnd):
         size = rnd.randint(1, 8)
         init = size if rnd.random() < 0.8 else rnd.randint(0, size)
         blocks, pos = [], 0
+        if parts and rnd.random() < 0.15:
+            pos = size            # an interval without blocks (a rewrite deleted its only block)
         while pos < size and len(blocks) < 3:
             sz = min(rnd.choice([1, 1, 2, 3]), size - pos)
             blocks.append((bid, pos, sz, rnd.random() < 0.6))
